@@ -1,0 +1,15 @@
+//go:build verif
+
+package sqlite
+
+import "database/sql"
+
+// SetDBOpenerForVerif substitutes the function New uses to open the database,
+// so that a verification harness can put a fault-injecting database/sql driver
+// underneath the store. It returns a function that restores the previous opener.
+// Compiled only with the "verif" build tag.
+func SetDBOpenerForVerif(open func(driverName, dataSourceName string) (*sql.DB, error)) (restore func()) {
+	old := dbOpener
+	dbOpener = open
+	return func() { dbOpener = old }
+}
